@@ -162,6 +162,9 @@ def effect():
     """`util::rng_fill_bytes` (raw pointer, while loop, generator draws) translated to a Lean definition over a store log (tools/extract_effect.py)"""
     import extract_effect
     extract_effect.generate(REPO, OUT, write_if_changed)
+    extract_effect.generate_block_fill(REPO, OUT, write_if_changed)
+    extract_effect.generate_system(REPO, OUT, write_if_changed)
+    extract_effect.generate_shuffle(REPO, OUT, write_if_changed)
 
 
 def main():
